@@ -89,7 +89,8 @@ def run(ctx):
     # ---- R1
     mc = cm.body_or_fail(ctx, p, "C11-R1", "mlpg_adjust::mask::Mask::create")
     if mc is not None:
-        ret = ExprBuilder(mc).local(0)
+        from ..expr import builder_with_collect_loops
+        ret = builder_with_collect_loops(mc).local(0)      # `for x in it { v.push(x) }` reads as it.collect()
         clos = [x for x in walk(ret) if x[0] == "agg" and x[1].startswith("closure:")]
         loop_ok = None
         if len(clos) != 1:
